@@ -11,6 +11,7 @@ import (
 
 func init() {
 	register("C08", func(c *core.Ctx, tier string) {
+		checkUnderFlushMu(c, "C08.10")
 		serverEffects(c, "C08.8")
 		c08Gate(c)
 		c08SwitchOnlyOnUpgrade(c)
